@@ -97,9 +97,10 @@ Definition projection_ok_sep (ncuts : nat) (L : list (list nat)) : bool :=
 Definition projection_ok_single (ncuts : nat) (L : list (list nat)) : bool :=
   match L with [sfx] => list_beq Nat.eqb sfx (identity_sfx ncuts) | _ => false end.
 
-(* per partition: number of circuits = #samples * #groups (C05 layout = C06 count validation) *)
-Definition counts_ok (nsamples : nat) (groups counts : list nat) : bool :=
-  list_beq Nat.eqb counts (map (fun g => nsamples * g) groups).
+(* per partition: number of circuits = #samples * #groups (C05 layout = C06 count validation); the counts are binary
+   numbers (thousands of subexperiments per partition occur) *)
+Definition counts_ok (nsamples : nat) (groups : list nat) (counts : list N) : bool :=
+  list_beq N.eqb counts (map (fun g => (N.of_nat nsamples * N.of_nat g)%N) groups).
 
 (* lookup tables: one location list per observable, every location inside its group (C06's locs_ok, C11's cover).
    A partition is given as (group sizes, lookup) *)
